@@ -25,8 +25,9 @@ import (
 )
 
 type eventCh[T any] struct {
-	id int
-	ch chan<- T
+	id           int
+	ch           chan<- T
+	closeEventCh chan struct{}
 }
 
 // Batcher is a one to many event batcher. It batches events and sends them to
@@ -83,14 +84,20 @@ func (b *Batcher[K, T]) subscribe(ctx context.Context, ch chan<- T) {
 	id := b.currentID
 	b.currentID++
 	bufferedCh := make(chan T, 50)
+	closeEventCh := make(chan struct{})
 	b.eventChs = append(b.eventChs, &eventCh[T]{
-		id: id,
-		ch: bufferedCh,
+		id:           id,
+		ch:           bufferedCh,
+		closeEventCh: closeEventCh,
 	})
 
 	b.wg.Add(1)
 	go func() {
 		defer func() {
+			// Release a delivery that is blocked on this subscriber's buffer
+			// (it holds the lock) before taking the lock.
+			close(closeEventCh)
+
 			b.lock.Lock()
 			close(ch)
 			for i, eventCh := range b.eventChs {
@@ -128,6 +135,7 @@ func (b *Batcher[K, T]) execute(i *item[K, T]) {
 	}
 	for _, ev := range b.eventChs {
 		select {
+		case <-ev.closeEventCh:
 		case ev.ch <- i.value:
 		case <-b.closeCh:
 		}
